@@ -28,6 +28,25 @@ def gen_unit(rng):
     tags = set()
     data, exp, spans, info = streams.gen_stream(rng, nvalues=rng.choice((1, 2, 3, 5, 8, 13, 21)), maxdepth=3, tags=tags,
                                                 classes=NO_ASTRAL, touch_p=rng.choice((0.0, 0.3, 0.8)), wsp=0.4)
+    if rng.random() < 0.2:
+        # string literals holding raw control characters (jawk reads them): a raw line feed inside a string is a line break of
+        # the input like any other, the values behind it lie on later lines
+        RAW = [(b'"r\nw"', "r\nw"), (b'{"k\n":[1,"\n\n"]}', {"k\n": [1, "\n\n"]}), (b'"t\tab\rcr"', "t\tab\rcr"), (b'["a\n","b"]', ["a\n", "b"]),
+               (b'"\n"', "\n"), (b'{"a":"x\ny","b":2}', {"a": "x\ny", "b": 2})]
+        exp, spans = list(exp), list(spans)
+        for _ in range(rng.choice((1, 2, 3))):
+            lit, val = rng.choice(RAW)
+            sep = rng.choice((b" ", b"\n", b"\n  ", b"\t"))
+            data += sep
+            spans.append((len(data), len(data) + len(lit)))
+            data += lit
+            exp.append(val)
+            if rng.random() < 0.6:
+                data += rng.choice((b" ", b"\n"))
+                spans.append((len(data), len(data) + 1))
+                data += b"7"
+                exp.append(7)
+        tags.add("raw-control-in-string")
     u = {"data": data, "expected": exp, "spans": spans, "only_oa": rng.random() < 0.3, "noise": None,
          "sched_seed": rng.getrandbits(32)}
     if rng.random() < 0.25:
@@ -248,7 +267,8 @@ def run_unit(ctx, unit):
     prng = _random.Random(n * 131 + len(cuts) * 7 + sum(cuts))
     labels = list(range(len(pieces)))
     prng.shuffle(labels)
-    fnames = [("%sf%d.json" % (prng.choice(("", "", "sub/", "z/y/")), labels[j])) for j in range(len(pieces))]
+    # (names with a comma, a blank, a leading dot: a path is one argument whatever it contains)
+    fnames = [("%s%sf%d.json" % (prng.choice(("", "", "sub/", "z/y/", "a,b/", ".hid/")), prng.choice(("", "", "", "p,", ".", "x y ")), labels[j])) for j in range(len(pieces))]
     files = [(fnames[j], p) for j, p in enumerate(pieces)]
     order = list(range(len(files)))
     if prng.random() < 0.25:
